@@ -329,7 +329,9 @@ def gen_case(rng, base, i, features):
     root = os.path.join(base, f"t{i}")
     t = build_tree(rng, root, features)
     args, overlap = path_args(rng, t)
-    algs = rng.choice([None, None, ["sha256"], ["sha512"], ["sha256", "sha512"]])
+    algs = rng.choice([None, None, ["sha256"], ["sha512"], ["sha256", "sha512"], ["sha512", "sha256"],
+                       # a selection may name an algorithm more than once (defaults concatenated with a user's list)
+                       ["sha256", "sha256", "sha512"], ["sha512", "sha256", "sha512"], ["sha256", "sha256"], ["sha512", "sha512", "sha256", "sha256"]])
     unknown = rng.random() < 0.03
     if unknown:
         algs = ["md5"]
